@@ -144,7 +144,7 @@ def runOne (cache : Cache) (j : Json) : Except String (List (String × Json) × 
       ("rt", Json.bool (rtCls S camel (levelOK S) c ms ov strict xc)),
       ("dom", Json.bool (rtCls S camel (levelDom S) c ms ov strict xc)),
       ("domE", Json.bool (rtCls S camel (levelDomE S) c ms ov strict xc)),
-      ("region", Json.bool (!camel && regionOK S c ov)),
+      ("region", Json.bool (regionOK S c ov camel)),
       ("wf", Json.bool (wfFields c.fields)),
       ("conf", Json.bool (conf c.fields x)),
       ("sync", Json.bool (syncOK ms md kvs)),
